@@ -265,6 +265,11 @@ class AbsRng(VAbs):
     def keyterm(self):
         return self.key
 
+    def ite_with(self, c, o):
+        r = AbsRng(z3.If(c, self.key, o.key))
+        r.draws = max(self.draws, o.draws)
+        return r
+
     def _bump(self):
         self.draws += 1
         return self.draws
@@ -273,6 +278,24 @@ class AbsRng(VAbs):
         if name in ("random", "uniform", "normal", "beta"):
             def f(args, kwargs, s, e, name=name):
                 self.draws += 1
+                # vector draws: rng.random(n) / rng.beta(a, b, size=n): n reals, a function of (key, draw number, position)
+                size = kwargs.get("size")
+                if size is None and name == "random" and args:
+                    size = args[0]
+                if size is None and name == "beta" and len(args) > 2:
+                    size = args[2]
+                if size is not None:
+                    size = e.deref(size, s)
+                    n = _e.to_int(size.elems[0]) if isinstance(size, VTuple) else _e.to_int(size)
+                    fv = z3.Function("RngRealVec", z3.IntSort(), z3.IntSort(), z3.IntSort(), z3.RealSort())
+                    key, d = self.key, z3.IntVal(self.draws)
+                    k = z3.Int(uid("k"))
+                    if name in ("random", "beta"):
+                        s.assume(z3.ForAll([k], z3.And(fv(key, d, k) >= 0, fv(key, d, k) < 1 if name == "random" else fv(key, d, k) <= 1),
+                                           patterns=[fv(key, d, k)]))
+                    r = VSeq(z3.If(n >= 0, n, 0), lambda i: VReal(fv(key, d, i if z3.is_expr(i) else _e.to_int(i))), REAL)
+                    r.kind = z3.IntVal(2)
+                    return s.alloc(r)
                 r = z3.Function("RngReal", z3.IntSort(), z3.IntSort(), z3.RealSort())(self.key, z3.IntVal(self.draws))
                 if name == "random":
                     s.assume(z3.And(r >= 0, r < 1))
@@ -315,7 +338,17 @@ class AbsRng(VAbs):
                 r = z3.Function("RngInt", z3.IntSort(), z3.IntSort(), z3.IntSort())(self.key, z3.IntVal(self.draws))
                 s.assume(z3.And(lo <= r, r < hi))
                 if "size" in kwargs:
-                    return s.alloc(VSeq.of([VInt(r)], INT))
+                    size = e.deref(kwargs["size"], s)
+                    n = _e.to_int(size.elems[0]) if isinstance(size, VTuple) else _e.to_int(size)
+                    if z3.is_int_value(z3.simplify(n)) and z3.simplify(n).as_long() == 1:
+                        return s.alloc(VSeq.of([VInt(r)], INT))
+                    fv = z3.Function("RngIntVec", z3.IntSort(), z3.IntSort(), z3.IntSort(), z3.IntSort())
+                    key, d = self.key, z3.IntVal(self.draws)
+                    k = z3.Int(uid("k"))
+                    s.assume(z3.ForAll([k], z3.And(lo <= fv(key, d, k), fv(key, d, k) < hi), patterns=[fv(key, d, k)]))
+                    rr = VSeq(z3.If(n >= 0, n, 0), lambda i: VInt(fv(key, d, i if z3.is_expr(i) else _e.to_int(i))), INT)
+                    rr.kind = z3.IntVal(2)
+                    return s.alloc(rr)
                 return VInt(r)
             return VFunc("rng.integers", f)
         raise KeyError(name)
